@@ -13,10 +13,11 @@ SPEC = {
         "patterns are plain literal text patterns; their occurrences are computed by the model's own naive search (overlapping occurrences included), not taken from the implementation",
         "rule sets use consecutive blocks of distinct namespaces; conditions that make the implementation panic (WASM traps, property C05) are counted in the distribution and excluded",
         "the tie between Sem.v and the compiler/scanner is differential (K over generated rule sets), except for the operator binding powers, which are regenerated from parser/src/ast/cst2ast.rs and conditions.md on every run",
-        "architecture layer: for every generated rule the IR dumped by the compiler is compared node by node with Cond/IrTree.v (all rules), and the emitted WebAssembly instruction by instruction with Cond/Emit.v (rules whose folded condition is in the fragment `tyof`: no strings, no percentage quantifiers, no for..of / tuples, `of` only un-anchored over pattern sets); emit_correct is proved for that whole fragment, for..in loops with all modelled quantifier arms included; the machine run of the same code is still evaluated by K",
+        "architecture layer: for every generated rule the IR dumped by the compiler is compared node by node with Cond/IrTree.v (all rules), and the emitted WebAssembly instruction by instruction with Cond/Emit.v for the rules `tyof` types (about 76% of the generated rules: everything but strings - literals, string externals, string operators and comparisons); emit_correct is proved for the structural part Emit.frag1 of that fragment (about 53% of the generated rules: no emit_switch constructs - `of` needing a loop, `of` over a tuple, for..of, for..in over a tuple - and no percentage quantifiers), for..in ranges with nested loops included; the machine run of the same code is evaluated by K on that part",
     ],
     "trusted_base": ["harness/src/wasm_read.rs: decoder of the WebAssembly binary written by Compiler::emit_wasm_file (unknown opcode = error); harness/src/bin/c02.rs rule_blocks / wasm_coq: finds every rule's block through the rule_match(<rule id>) call that follows it, resolves call targets and globals through the import section, keeps only the offset of a memarg and the arity of a block type",
                      "hook lib/src/verif_c02.rs (Rules::verif_c02_pattern_ids): the PatternId of every declared pattern, which the emitted code uses instead of the position in the rule",
+                     "coq/Cond/Emit.v pct_code: the f64 instructions of a percentage quantifier are carried as raw opcodes (IRaw) - compared with the emitted code, never executed by the model",
                      "coq/Cond/Wasm.v op_bin / op_un / lower: WebAssembly opcode numbers, and the two expansions (field lookup, matching-rules bitmap byte) where Cond/Emit.v is more abstract than the emitted code",
                      "harness/src/cond_gen.rs parse_ir: reads the text `impl Debug for IR` prints (kinds, attributes, indentation) and applies the two normalisations listed in Cond/IrTree.v",
                      "Gen/BindingPower.v, Gen/DocPrecedence.v: regenerated from parser/src/ast/cst2ast.rs (binding_power closure) and site/content/docs/writing_rules/conditions.md (operator table)",
